@@ -282,9 +282,17 @@ def one_step(cfg, ctx, first_attempt):
                 x0 = X0[k].copy()
                 ch = make_sampler(cfg, x0.copy(), tgt)
                 n0 = len(tgt.trace)
+                rec = None
+                if cls == "pca" and getattr(ch, "bounds", None) is not None:
+                    # (as for the ensemble sampler: a proposal that the sampler finds outside its bounds is a rejected attempt which
+                    # never reaches the posterior - seen through the public Bounds.inside of a recording stand-in)
+                    rec = RecordingBounds(ch.bounds.lower, ch.bounds.upper)
+                    ch.bounds = rec
                 ch.take_step()
                 tr = tgt.trace[n0:]
-                if first_attempt:
+                if first_attempt and rec is not None and rec.calls and rec.calls[0] is False:
+                    X1[k] = x0
+                elif first_attempt:
                     first = tr[0][0]
                     if cls == "gibbs" and d >= 2 or cls == "pca":
                         # coordinate / direction 0 acts first; accepted iff the next evaluation keeps its value
@@ -394,6 +402,14 @@ def body_proposal_law(case, ctx):
                 cdf = stats.norm(x0[i], widths[i]).cdf
                 kind = "plain"
             res = stats.kstest(props[:, i], cdf)
+            if cls == "pca" and box is not None and res.pvalue < P_FLOOR:
+                # a sampler whose directions need not be axis-parallel may equally treat a proposal outside the bounds as a proposal of
+                # zero density, i.e. reject it (the fold is reversible for axis-parallel steps only): the first point at which the
+                # posterior is evaluated is then the normal proposal restricted to the bounds - also a symmetric, reversible kernel
+                za, zb = stats.norm.cdf(box[0][i], x0[i], widths[i]), stats.norm.cdf(box[1][i], x0[i], widths[i])
+                cdf = lambda y, i=i, za=za, zb=zb: np.clip((stats.norm.cdf(y, x0[i], widths[i]) - za) / (zb - za), 0, 1)  # noqa: E731
+                kind = "reflected / restricted-to-the-bounds"
+                res = stats.kstest(props[:, i], cdf)
             ctx.stat(test="KS", what=f"{what} coordinate {i} ({kind})", n=N, statistic=float(res.statistic), p=float(res.pvalue), threshold=P_FLOOR)
             if res.pvalue < P_FLOOR:
                 raise Violation(f"proposal-law:{cls}:{kind}", f"{what}: coordinate {i} does not follow the {kind} normal proposal of width {widths[i]:.4g} about {x0[i]:.4g}: KS {res.statistic:.4f}, p = {res.pvalue:.3g}")
@@ -736,6 +752,162 @@ def body_hmc_proposal_reversible(case, ctx):
     c07.body_reversible(case, ctx)
 
 
+# ------------------------------------------------------------------ a chain that has adapted: principal directions, proposal widths, step size
+@st.composite
+def adapted_pca_cases(draw):
+    d = draw(st.sampled_from([2, 2, 3]))
+    return {"seed": draw(st.integers(0, 2**31)), "d": d, "side": 10 ** draw(st.floats(-1, 1)), "lo": [draw(st.floats(-2, 2)) for _ in range(d)],
+            "width_frac": draw(st.floats(0.15, 0.6)), "warm": draw(st.sampled_from([105, 130, 260])), "start_u": [draw(st.floats(0.1, 0.9)) for _ in range(d)]}
+
+
+def body_adapted_pca(case, ctx):
+    """PcaChain with bounds, after its first update of the principal directions, on a density that is flat on a cubic box.  The first
+    attempt of a step - a move along the first direction, brought back inside the bounds or rejected there - is accepted whenever it
+    is evaluated at all (the density is flat), so 'the state after the first attempt' is the pure proposal kernel and must leave the
+    uniform distribution on the box invariant, which it does if the move is reversible.  (Only the first attempt: a rejected attempt
+    is redrawn by the sampler - the recorded full-step finding - and a proposal that the sampler rejects for lying outside the bounds
+    is such an attempt.)  The covariance of a uniform sample on a cube is a multiple of the identity plus noise, so the adapted
+    directions are oblique to the coordinate axes."""
+    import copy
+    from inference.mcmc import PcaChain
+
+    d, side = case["d"], case["side"]
+    lo = np.array(case["lo"]) * side
+    hi = lo + side
+    spec = {"kind": "cells", "d": d, "lo": lo.tolist(), "hi": hi.tolist(), "m": 1, "logw": [0.0]}
+    tgt = Target(spec, record=True)
+    rngctl.reset(case["seed"])
+    with warnings.catch_warnings():
+        warnings.simplefilter("ignore")
+        warm = PcaChain(posterior=tgt, start=lo + np.array(case["start_u"]) * side, widths=np.full(d, case["width_frac"] * side), bounds=(lo.copy(), hi.copy()), display_progress=False)
+        warm.rng = rngctl.rng(case["seed"], 61)
+        with np.errstate(all="ignore"):
+            warm.advance(case["warm"])
+    V = np.array(warm.directions)
+    tgt.trace.clear()
+    obliq = float(np.min(np.max(np.abs(V), axis=1)))        # 1 for axis-parallel directions, 1/sqrt(d) for fully oblique ones
+    N = 4000 if ctx.tier == "quick" else 20000
+    if ctx.replay:
+        N = 20000
+    gen = rngctl.rng(case["seed"], 62)
+    X0 = lo + gen.random((N, d)) * side
+    X1 = np.empty((N, d))
+    for k in range(N):
+        ch = copy.deepcopy(warm)
+        ch.rng = rngctl.rng(case["seed"], 1000 + k)
+        # (the documented way of installing a point - what the tempering workers do: replace_last and the point's own log-probability)
+        ch.replace_last(X0[k].copy())
+        ch.probs[-1] = 0.0 * ch.inv_temp          # (the flat density's value at any point of the box)
+        rec = RecordingBounds(lo, hi)
+        ch.bounds = rec
+        ch.posterior.trace.clear()
+        with np.errstate(all="ignore"):
+            ch.take_step()
+        # a sampler that finds the proposal outside its bounds rejects it before any evaluation; otherwise the first evaluated point
+        # is the (possibly folded) proposal, accepted because the density is flat
+        X1[k] = X0[k] if (rec.calls and rec.calls[0] is False) else ch.posterior.trace[0][0]
+    if np.any(X1 < lo - 1e-9 * side) or np.any(X1 > hi + 1e-9 * side):
+        raise Violation("adapted-pca:outside-box", "a sample outside the bounds")
+    # uniformity: marginals (KS) and joint occupancy of 4^d equal cells (chi-square), exact under the null
+    worst = 1.0
+    for i in range(d):
+        res = stats.kstest((X1[:, i] - lo[i]) / side, "uniform")
+        ctx.stat(test="KS", what=f"adapted PCA coordinate {i}", n=N, statistic=float(res.statistic), p=float(res.pvalue), threshold=P_FLOOR)
+        worst = min(worst, res.pvalue)
+    m = 4
+    idx = np.minimum(((X1 - lo) / side * m).astype(int), m - 1)
+    counts = np.bincount(np.ravel_multi_index(tuple(idx.T), [m] * d), minlength=m**d)
+    exp = N / m**d
+    chi = float(((counts - exp) ** 2 / exp).sum())
+    pchi = float(stats.chi2(m**d - 1).sf(chi))
+    ctx.stat(test="chi2-cells", what="adapted PCA joint occupancy", n=N, statistic=chi, p=pchi, threshold=P_FLOOR)
+    worst = min(worst, pchi)
+    if worst < P_FLOOR:
+        raise Violation("adapted-pca:not-invariant", f"PcaChain with bounds (flat density on a cube of side {side:.3g}, d={d}, proposal widths {[round(float(p_.sigma) / side, 3) for p_ in warm.params]} sides, "
+                                                     f"directions after {case['warm']} steps {np.round(V, 3).tolist()}): one step from the uniform distribution does not give the uniform distribution - "
+                                                     f"cell occupancy chi-square {chi:.1f} on {m**d - 1} dof (p = {pchi:.3g}), min marginal KS p = {worst:.3g}")
+    ctx.nontrivial(obliq < 0.95)
+    ctx.event("oblique directions" if obliq < 0.95 else "near-axis directions")
+    ctx.event(f"d={d}")
+
+
+@st.composite
+def long_run_cases(draw):
+    cls = draw(st.sampled_from(["gibbs", "pca", "hmc", "gibbs"]))
+    d = draw(st.integers(1, 2)) if cls != "pca" else draw(st.integers(1, 2))
+    return {"seed": draw(st.integers(0, 2**31)), "cls": cls, "d": d, "shape": draw(st.sampled_from(["flat", "broad", "broad"])),
+            "rel_sd": draw(st.floats(0.7, 3.0)), "lo": [draw(st.floats(-2, 2)) for _ in range(d)], "side": [10 ** draw(st.floats(-1, 1)) for _ in range(d)],
+            "T": draw(st.sampled_from([1.0, 1.0, 10.0])), "steps": draw(st.sampled_from([4500, 6000])) if cls != "hmc" else draw(st.sampled_from([1200, 2000]))}
+
+
+def body_long_run(case, ctx):
+    """'for every realisation, any chain length': a parameter with two finite limits whose density is broad compared with them (a weakly
+    constrained parameter, a hot rung of a tempering ladder) - or exactly flat - keeps being sampled from its truncated law however
+    long the chain runs: the proposal width / step size adaptation must not drive the chain into a state from which it only ever
+    returns one value.  Judged on the last third of the run, thinned to near-independence: KS against the exact truncated law, and the
+    number of distinct values."""
+    from inference.mcmc import GibbsChain, PcaChain, HamiltonianChain
+
+    cls, d = case["cls"], case["d"]
+    side = np.array(case["side"])
+    lo = np.array(case["lo"]) * side
+    hi = lo + side
+    centre = 0.5 * (lo + hi)
+    sd = case["rel_sd"] * side
+    flat = case["shape"] == "flat"
+    T = 1.0 if (flat or cls == "hmc") else case["T"]
+
+    def logp(t):
+        t = np.asarray(t, dtype=float)
+        return 0.0 if flat else float(-0.5 * np.sum(((t - centre) / sd) ** 2))
+
+    def grad(t):
+        t = np.asarray(t, dtype=float)
+        return np.zeros(d) if flat else -(t - centre) / sd**2
+
+    rngctl.reset(case["seed"])
+    with warnings.catch_warnings():
+        warnings.simplefilter("ignore")
+        if cls == "gibbs":
+            ch = GibbsChain(posterior=logp, start=centre.copy(), widths=0.3 * side, temperature=T, display_progress=False)
+            for i in range(d):
+                ch.set_boundaries(i, (float(lo[i]), float(hi[i])))
+        elif cls == "pca":
+            ch = PcaChain(posterior=logp, start=centre.copy(), widths=0.3 * side, temperature=T, bounds=(lo.copy(), hi.copy()), display_progress=False)
+        else:
+            ch = HamiltonianChain(posterior=logp, grad=grad, start=centre.copy(), epsilon=0.1 * float(side.min()), bounds=(lo.copy(), hi.copy()), display_progress=False)
+    n = case["steps"]
+    with np.errstate(all="ignore"), warnings.catch_warnings():
+        warnings.simplefilter("ignore")
+        ch.advance(n)
+    Sm = np.asarray(ch.get_sample(burn=2 * n // 3), dtype=float).reshape(-1, d)
+    if np.any(~np.isfinite(Sm)) or np.any(Sm < lo - 1e-9 * side) or np.any(Sm > hi + 1e-9 * side):
+        raise Violation(f"long-run:outside:{cls}", "non-finite samples or samples outside the limits")
+    for i in range(d):
+        col = Sm[:, i]
+        distinct = np.unique(col).size
+        if distinct < 0.05 * col.size:
+            raise Violation(f"long-run:collapsed:{cls}:{case['shape']}", f"{cls} on a {'flat' if flat else 'broad (sd %.2g x interval)' % case['rel_sd']} density limited to [{lo[i]:.4g}, {hi[i]:.4g}] (T={T}): "
+                                                        f"the last {col.size} of {n} samples of parameter {i} take only {distinct} distinct values (mean {col.mean():.4g})")
+        # thinned to near-independence (the wide, folded proposals of such a chain decorrelate within a few steps)
+        thin = col[::25]
+        sdT = sd[i] * np.sqrt(T)
+        if flat:
+            cdf = lambda x, a=lo[i], w=side[i]: np.clip((x - a) / w, 0, 1)
+        else:
+            za, zb = (lo[i] - centre[i]) / sdT, (hi[i] - centre[i]) / sdT
+            cdf = lambda x, c=centre[i], s_=sdT, za=za, zb=zb: (stats.norm.cdf((x - c) / s_) - stats.norm.cdf(za)) / (stats.norm.cdf(zb) - stats.norm.cdf(za))
+        res = stats.kstest(thin, cdf)
+        ctx.stat(test="KS", what=f"long run {cls} parameter {i}", n=thin.size, statistic=float(res.statistic), p=float(res.pvalue), threshold=1e-8)
+        if res.pvalue < 1e-8:
+            raise Violation(f"long-run:law:{cls}:{case['shape']}", f"{cls}, {n} steps, parameter {i} limited to [{lo[i]:.4g}, {hi[i]:.4g}]: the thinned tail of the chain is not distributed as the truncated target "
+                                                  f"(KS {res.statistic:.3f}, p = {res.pvalue:.3g}, n = {thin.size}; mean {thin.mean():.4g}, sd {thin.std():.4g})")
+    ctx.nontrivial(True)
+    ctx.event("cls=" + cls)
+    ctx.event("shape=" + case["shape"])
+    ctx.event(f"T={T:g}")
+
+
 def _pt_cases():
     """'each chain run under parallel tempering': real ladders of Gibbs / Metropolis / PCA / Hamiltonian chains (worker processes);
     every exchange decision is judged against min(1, exp((1/T_i - 1/T_j)(L_j - L_i))) and every chain's current log-probability against
@@ -766,6 +938,10 @@ SUBCHECKS = [
         rule=">= 3 stored moves taken with unstable step sizes"),
     Sub("tempering", lambda t: _pt_cases(), _pt_body, quick=48, thorough=1500, shards_quick=16, shards_thorough=16, weight=60,
         rule=">= 1 accepted and >= 1 rejected exchange with N >= 3"),
+    Sub("adapted-pca-box", lambda t: adapted_pca_cases(), body_adapted_pca, quick=16, thorough=200, shards_quick=16, shards_thorough=16, weight=1500,
+        shrink=False, case_timeout=(300, 900), rule="principal directions oblique to the axes (largest component below 0.95)"),
+    Sub("long-run", lambda t: long_run_cases(), body_long_run, quick=32, thorough=400, shards_quick=16, shards_thorough=16, weight=800,
+        shrink=False, case_timeout=(300, 900), rule="every case (thousands of steps on a bounded parameter with a broad or flat density)"),
     Sub("full-step", lambda t: law_configs(classes=("metropolis", "gibbs", "ensemble") if t == "quick" else ("metropolis", "gibbs", "ensemble", "pca", "hmc")), body_full_step, quick=32, thorough=160, shards_quick=8, shards_thorough=16,
         weight=3000, shrink_budget=(5, 30), case_timeout=(600, 1800), shrink=False, rule="T != 1 or limits / bounds or d >= 2"),
 ]
